@@ -25,7 +25,7 @@ def gen_case(rng, tier, avoid):
     spec.new_file(mrl=gen.record_length(rng, small=0.3))
     for li in range(n_lf):
         idlen = rng.choice([0, 1, 11, 64, 65, rng.randint(0, 65)])
-        hid = ''.join(rng.choice('ABCDEFGHIJKLMNOPQRSTUVWXYZ-_ 0123456789abcxyz') for _ in range(idlen)).strip() if rng.random() < 0.7 else None
+        hid = ''.join(rng.choice('ABCDEFGHIJKLMNOPQRSTUVWXYZ-_ 0123456789abcxyz') for _ in range(idlen)).rstrip() if rng.random() < 0.7 else None
         kw = {}
         if hid is not None:
             kw['fh_id'] = hid
